@@ -37,3 +37,19 @@ def accepted_sets(gs):
         if s.ack_code in ('A', 'E'):
             n += 1
     return n
+
+
+def stored_isa(isa):
+    n = len(isa.errors)
+    for e in isa.elements:
+        n += stored_ele(e)
+    for g in isa.children:
+        n += stored_gs(g)
+    return n
+
+
+def stored_root(errh):
+    n = 0
+    for i in errh.children:
+        n += stored_isa(i)
+    return n
